@@ -1,6 +1,7 @@
 import astload
 import protocol
 import lemma
+import numerics
 from core import Fn, Target
 from cxx2c import unwrap, Unsupported, qual
 
@@ -118,22 +119,35 @@ def build(tier):
         Target('bundle_ctor', [ctor, a4()], H, replace=['bundle_append4']),
         Target('bundle_econverged', [econv, size(), cap()], H, replace=acc), Target('bundle_sconverged', [sconv, size(), cap()], H, replace=acc),
     ] + protocol.targets(['NV_C03']) + [protocol.ellipsoid(), protocol.state_ctor()]
+    num_vcs, num_bounded, num_info = numerics.build(tier)
     return {
-        'targets': targets, 'vcs': [], 'bounded': [lemma.target()],
+        'targets': targets, 'vcs': num_vcs, 'bounded': [lemma.target()] + num_bounded, 'functions': num_info,
         'decided': ['bundle_t representation invariant 0 < m_size < capacity() after append / moveto (and from m_size >= 0, as the constructor uses append); every index written into m_bundleE / m_bundleS / m_alphas lies in [0, capacity()); delete_largest reads m_alphas inside [0, size()) and a full bundle loses at least `count` entries',
                     'bundle_t constructor: capacity() = max_size + 1 >= 3 slots in all three buffers (the shape NV_BUNDLE_SHAPE every other contract assumes), centre copied from the state, invariant established by the first append',
                     'econverged / sconverged: smeared_e <= epsilon * sqrt(dimension of x), |smeared_s|_2 <= epsilon * sqrt(dimension of x) (the formula of the property; sqrt uninterpreted)',
                     'csearch_t::search: the returned (y, gy, fy) is one evaluation; converged => both stopping tests were evaluated true with the caller\'s epsilon on the bundle version returned by its last solve; non-finite fy => failed; a status that makes a claim about the returned point was decided in this call after the last evaluation (pins the repair 778c4d3); descent_step / cutting_plane_step / null_step are reported only for a trial that passed the corresponding tests of this call (sufficient descent f(centre) - fy >= m1*delta; gy.(y-x) >= -m2*delta; sconverged or s.(y-x) >= -m4*delta; e <= m3*delta) on the quantities computed for that trial; the proximity centre is not moved; at most one evaluation beyond max_evals',
                     'rqb / fpba1,2 do_minimize: converged => the curve search decided converged for the final bundle; rqb: the returned state is the bundle\'s proximity centre; fpba: the returned (best) value is not above a finite centre value',
-                    'ellipsoid: converged => g\'Hg < machine epsilon was computed after the last evaluation, or sqrt(g\'Hg) < epsilon was evaluated after the last evaluation on that iteration\'s g\'Hg'],
+                    'ellipsoid: converged => g\'Hg < machine epsilon was computed after the last evaluation, or sqrt(g\'Hg) < epsilon was evaluated after the last evaluation on that iteration\'s g\'Hg',
+                    'BOUNDED (dimension n = 1, 2, 3; reals; specs/C03/ellipsoid_num.py): one iteration of solver_ellipsoid_t::do_minimize from the state its own prefix builds AND from an arbitrary loop-head state (x, H, g, f, best state with f_best <= f): the new centre and shape equal the textbook deep-cut update alpha = (f - f_best)/sqrt(g\'Hg), x+ = x - (1 + n alpha)/(n + 1) H g / sqrt(g\'Hg), H+ = n^2/(n^2 - 1) (1 - alpha^2) (H - 2 (1 + n alpha)/((n + 1)(1 + alpha)) H g g\' H / (g\'Hg)), both computed from the OLD H; H+ stays symmetric; n == 1 is bisection (x+ = x -/+ H, H+ = H/2); the initial shape is R^2 I (R for n == 1) around x0; the function is evaluated exactly once per iteration, at x+, and update_if_better gets (x+, g+, f+); the quantity handed to done() as `converged` is sqrt(g\'Hg) < epsilon of the H and g that produced the step, the degenerate exit tests g\'Hg of the loop-head H and g against machine epsilon; an iteration that continues re-establishes f_best <= f (hence alpha >= 0, 1 + alpha != 0); every division / sqrt of the body is defined.  THOROUGH tier, n = 2 (bonus): the defining property of the update on the code\'s own x+ and H+: for H symmetric positive definite, z = x + H v with v\'Hv <= 1 (z in E(x, H)), g\'(z - x) <= -(f - f_best) and 0 <= alpha < 1 there is w with H+ w == z - x+ and w\'(z - x+) <= 1 (z in E(x+, H+)); proved as a chain witness / cauchy-schwarz / expansion / cut / scalar / containment, no matrix inverse involved',
+                    'BOUNDED (n <= 3, at most 3 bundle entries, capacity 4; reals; specs/C03/bundle_num.py): the linearisation-error identity that keeps the cutting-plane model a lower bound. With the ghost (y_i, f_i, g_i) per entry and the invariant E(i) == f(centre) - (f_i + g_i.(centre - y_i)), S(i) == g_i: bundle_t::append(serious) re-bases every retained entry (E\'(i) == fy - (f_i + g_i.(y - y_i)), S\'(i) == g_i) and appends (0, gy); append(null) keeps the entries and appends E == f(centre) - (fy + gy.(centre - y)), S == gy; moveto hands (y, gy, fy, true) to append while the centre is still the old one and then installs (y, gy, fy): the invariant holds for the NEW centre; append(y, gy, fy) hands (y, gy, fy, false) on; store_aggregate writes exactly sum alpha_i E(i), sum alpha_i S(i) over the entries [0, size()) into slot capacity()-1 (with sum alpha_i == 1: the alpha-combination of the entries\' cutting planes at every point z); append_aggregate copies that slot into entry size(); econverged / sconverged compare exactly these alpha-weighted combinations of the CURRENT buffers (sum alpha_i E(i), |sum alpha_i S(i)|_2) with epsilon sqrt(n); the inline accessors size / capacity / e / alpha / S / smeared_e / smeared_s of bundle.h are walked at each call',
+                    'BOUNDED (n <= 2 quick, n = 3 thorough; reals): bundle_t::solve for 1 and 2 entries (the branches that do not call the QP solver): the multipliers sum to 1 and are non-negative, nothing else changes, and for 2 entries with S(0) != S(1) they minimise the dual of the proximal bundle problem 1/2 |sum alpha_i S(i)|^2 + miu sum alpha_i E(i) over the simplex'],
         'not_decided': ['the certificate f(x)-f* <= 2 eps sqrt(n)(1+|x-x*|): follows from the cutting-plane model being a lower bound, a convex-analysis argument about values', 'ellipsoid always converges',
-                        'the deep-cut ellipsoid update, the linearisation errors, aggregation, the QP solve, the proximity parameter: erased numerics'],
+                        'the QP solve for 3 and more entries (bundle_t::solve through program::solver_t: that the multipliers it leaves are the simplex-constrained minimiser, in particular sum alpha_i == 1 and alpha_i >= 0; for 2 entries with equal sub-gradients the code relies on IEEE inf / NaN and std::isfinite, outside the real model), the proximity parameter, delta() / proximal(), the Nesterov sequences of fpba: erased numerics',
+                        'that delete_inactive / delete_largest (nano::remove_if on the three buffers, std::nth_element) keep the (E, S) pair of every retained entry together: assumed by the append obligations (the size / capacity side of it is proved by the CBMC targets)',
+                        'the ellipsoid update and the linearisation-error identities in floating point (rounding, cancellation), for n > 3 / more than 3 bundle entries (the formula obligations are BOUNDED stand-ins over the reals), and Eigen storage aliasing in `H = expression of H`',
+                        'ellipsoid: that the minimiser stays inside the ellipsoid for n != 2 (the containment property of the deep-cut update is shown at n = 2 only, thorough tier, bounded), that H stays positive definite, and that alpha < 1 (x* inside the initial radius; for alpha >= 1 the cut misses the ellipsoid, H+ is no longer positive definite and a later iteration leaves through one of the two stopping tests: observed natively for f = |x0 - 5| + 2|x1 + 3| from x0 = 0 with R = 0.5, 1, 2: status converged after 36 evaluations at f - f* = 9.9, 8.8, 6.5, while R = 10 converges to (5, -3); this is outside the quantifier of the property, which places x* inside the initial radius)'],
         'assumptions': ['cardinality lemma for std::nth_element + nano::remove_if (entries at or after the partition point are >= any element at or before it), stated in specs/C03/bundle.h; checked on the real nano::remove_if for capacities <= 5 by the bounded target lemma_remove_if_cardinality_bounded',
-                        'contents of m_bundleS, smeared_e/smeared_s and the QP solve are erased',
+                        'CBMC targets: contents of m_bundleS, smeared_e/smeared_s and the QP solve are erased (the formula obligations of specs/C03/bundle_num.py keep them, at bounded sizes)',
+                        'formula obligations (specs/C03/ellipsoid_num.py, bundle_num.py): double is treated as real; Eigen / nano tensor operators (+ - * / on vectors and matrices, products, transpose, dot, norm, lpNorm<2>, identity, .array() += scalar, matrix *= / /= scalar, tensor.slice(b, e), matrix.vector(i) / .tensor(i) as row views, the linear index H(0) of a rank-2 tensor) have their mathematical meaning and a right-hand side is evaluated before it is assigned (also under .noalias() when the right-hand side is coefficient-wise at the top: nested products are evaluated into temporaries); tensor.vector() / .matrix() are Eigen::Map views of the tensor\'s own storage (a local initialised with one is another name of the tensor)',
+                        'formula obligations, ellipsoid: function.vgrad(x, g) is one evaluation at x (arbitrary value, arbitrary g, an arbitrary `isfinite` flag); solver_state_t{function, x0} is one evaluation at x0; update_if_better(x, g, f) replaces the state by (x, g, f) iff f is finite and below the stored value (src/solver/state.cpp, not walked); solver_t::done returns converged || !(iter_ok && valid) (PROVED: target solver_done); hypothesis of the generic scenario: f_best <= f at the loop head (re-established by the obligation best-below)',
+                        'formula obligations, bundle: delete_inactive / delete_largest at the head of append leave SOME bundle that satisfies the linearisation invariant for the unchanged centre (the walk continues from an arbitrary such bundle); sum alpha_i == 1 (guarantee of the QP solve; shown for the analytic branches of solve with 1 and 2 entries) is a hypothesis of the aggregate-plane lemma only; solve with 2 entries: S(0) != S(1), and std::isfinite of a quotient with a non-zero divisor is true',
                         'protocol view of bundle_t (specs/C03/protocol.h nv_pb_*): solve / append / moveto change the bundle version, moveto stores (y, gy, fy) as the centre, econverged / sconverged are functions of the current bundle and epsilon (transcribed from specs/C03/bundle.h and src/solver/bundle.cpp)',
                         'vector identities and the deterministic-function prophecy of specs/C02/nonls.h'],
         'trusted': [],
     }
+
+
+_REPLAYED = {}
 
 
 def replay(rp):
@@ -143,6 +157,26 @@ def replay(rp):
     import subprocess
     import replaylib
     out = {'reproduced': False, 'runs': []}
+    import os
+    if '[' in rp.get('target', '') and ('/mut_C03_' in os.environ.get('NV_SCRATCH', '') or os.environ.get('NV_NO_NATIVE_REPLAY')):
+        # canary-mutation self test of the thorough tier (it only looks at the refuted obligation) / mutation loops
+        out['skipped'] = 'canary-mutation run / NV_NO_NATIVE_REPLAY'
+        return out
+    if rp.get('target', '').startswith('ellipsoid_iteration'):
+        # formula obligations of the ellipsoid solver: the real solver runs on a fixed convex function with a spy function_t that records every
+        # evaluation; the driver re-runs the textbook deep-cut / bisection recurrence on the recorded (x, f, g) and compares the next evaluation point
+        if 'ellipsoid' not in _REPLAYED:
+            exe = replaylib.build_with_library('replay/C03_ellipsoid_replay.cpp', 'C03_ellipsoid_replay')
+            _REPLAYED['ellipsoid'] = replaylib.run_driver(exe, [])
+        rc, so, se = _REPLAYED['ellipsoid']
+        out['runs'].append({'exit': rc, 'output': so.strip()[:3000]})
+        out['reproduced'] = rc == 1
+        if rc != 1:
+            out['note'] = 'the evaluation points on the replay function agree with the textbook recurrence: the refuted clause does not show in this scenario'
+        return out
+    if '[' in rp.get('target', ''):
+        out['note'] = 'bounded formula obligation of bundle_t: the replay file carries the verifier output (SMT model) only'
+        return out
     if any(k in rp.get('target', '') for k in ('csearch', 'rqb')):
         # step-status protocol of the curve search: RQB acting on a status that was not decided for the returned trial returns a
         # value above the starting value on convex functions with a tiny budget
